@@ -37,6 +37,9 @@ void cv_all_cells(CellVec *c, int res);                 /* every cell of a resol
 void cv_pentagon_strata(CellVec *c, int res, int k);    /* k-disks of the 12 pentagons */
 void cv_random_cells(CellVec *c, int res, int n);       /* uniform digits (valid cells) */
 void cv_seam_cells(CellVec *c, int res, int nPerEdge);  /* cells along icosahedron edges */
+void cv_sparse_digit_cells(CellVec *c, int res, int quick); /* all digits 0 except one / trailing zeros after a random prefix */
+void cv_polar_cells(CellVec *c, int res);               /* the cells containing the poles and their neighbours */
+void cv_antimeridian_cells(CellVec *c, int res, int n); /* cells on lng = +-pi at n latitudes, with neighbours */
 uint64_t vt_random_cell(int res);
 uint64_t vt_mutate_word(uint64_t h);                    /* structured near-valid words */
 
